@@ -562,7 +562,9 @@ class Canon:
     def _e_Name(self, e: ast.Name) -> S:
         b = self.scope.lookup_bound(e.id)
         if b is not None:
-            return b
+            # bound variables are numbered relative to the comprehension / lambda they are used in (1 = its own
+            # variables, 2 = those of the enclosing one, ...): a closed comprehension has one form at any nesting depth
+            return ("b", self._bdepth - b[1] + 1, b[2])
         if e.id in self.scope.env:
             return self.scope.env[e.id]
         if e.id in self.varids:
@@ -853,10 +855,9 @@ class Canon:
 
     def _bind_target(self, t: ast.expr, d: dict, counter: list[int]) -> S:
         if isinstance(t, ast.Name):
-            s = ("b", self._bdepth, counter[0])
+            d[t.id] = ("b", self._bdepth, counter[0])      # absolute depth, for the lookup
             counter[0] += 1
-            d[t.id] = s
-            return s
+            return ("b", 1, counter[0] - 1)
         if isinstance(t, (ast.Tuple, ast.List)):
             return ("tuple", tuple(self._bind_target(x, d, counter) for x in t.elts))
         return self.expr(t)
@@ -1152,6 +1153,20 @@ def atoms_of(s: S, pred: Callable[[S], bool]) -> list[S]:
 
 
 # ------------------------------------------------------------------ involution
+def _shift_bound(s: S, by: int) -> S:
+    """bound-variable references of a term that is moved ``by`` comprehension levels inwards"""
+    if isinstance(s, tuple):
+        if len(s) == 3 and s[0] == "b" and isinstance(s[1], int):
+            return ("b", s[1] + by, s[2])
+        return tuple(_shift_bound(x, by) for x in s)
+    return s
+
+
+def copy_sigma(sg: "Sigma", raw_subst: dict) -> "Sigma":
+    import dataclasses
+    return dataclasses.replace(sg, raw_subst=raw_subst)
+
+
 @dataclass
 class Sigma:
     """A renaming / involution applied to canonical forms."""
@@ -1171,6 +1186,9 @@ class Sigma:
     word_map: dict[str, str] = field(default_factory=dict)      # replace words inside string constants
 
     def apply(self, s: S) -> S:
+        return self._ap(s)
+
+    def _ap_children(self, s: S) -> S:
         return self._ap(s)
 
     # helpers
@@ -1217,6 +1235,14 @@ class Sigma:
             return s
         if self.raw_subst and s in self.raw_subst:
             return self.raw_subst[s]
+        if self.raw_subst and s[0] in ("comp", "lambda") and any(isinstance(k, tuple) and k[:1] == ("b",) for k in self.raw_subst):
+            # inside a nested comprehension / lambda the variables of the enclosing one are one level further away
+            inner = copy_sigma(self, {(("b", k[1] + 1, k[2]) if isinstance(k, tuple) and k[:1] == ("b",) else k): _shift_bound(v, 1)
+                                      for k, v in self.raw_subst.items()})
+            if s[0] == "lambda":
+                return ("lambda", s[1], inner._ap_children(s[2]))
+            return ("comp", s[1], tuple(inner._ap_children(x) for x in s[2]),
+                    tuple((g[0], inner._ap_children(g[1]), inner._ap_children(g[2])) for g in s[3]))
         if self.selfswap:
             if s == self.selfswap[0]:
                 return self.selfswap[1]
